@@ -20,7 +20,9 @@ def gen_ops(rng, d):
             kw = {}
             for _ in range(rng.choice([1, 1, 2, 3])):
                 c = rng.random()
-                if c < 0.45:
+                if c < 0.08:
+                    kw["python_modules"] = rng.choice([["numpy", "math"], ["math"], ["scipy", "numpy"]])
+                elif c < 0.45:
                     f = rng.choice(["max_dt_sec", "innovation_filtering", "extra_validation", "common_subexpression_elimination"])
                     kw[f] = {"max_dt_sec": rng.choice([0.05, 0.2, 0.5]), "innovation_filtering": rng.choice([None, 2.0, 7.0]),
                              "extra_validation": False, "common_subexpression_elimination": rng.choice([True, False])}[f]
@@ -63,6 +65,12 @@ def run(ctx: Ctx):
         nvec = len(d["control"]) + sum(len(r) for r in d["sensors"].values())
         vecs = [[ctx.rng.choice([-1.0, 0.0, 1e-7, 0.5, 2.0, 1e-6, 3.25]) for _ in range(nvec)] for _ in range(3)]
         job = {"defn": d, "k": 4.0, "decl": {"container": "set", "perm_seed": i}, "ops": gen_ops(ctx.rng, d), "vectors": vecs, "config0": {}}
+        if i % 5 == 4:
+            # the configuration handed in is an instance of a Config subclass (the workflow's own ConfigView): reading the
+            # parameters and setting them again, or cloning, must leave it what it was
+            job["config0_view"] = True
+            job["config0"] = {"innovation_filtering": 7.0, "max_dt_sec": 0.2}
+            job["ops"] = [["get_set"], ["clone"], ["get_set"]]
         if i < n_fit:
             width = len(d["control"]) + sum(len(r) for r in d["sensors"].values())
             job["fit_rows"] = ctx.rng.randint(1, 5)
@@ -83,6 +91,15 @@ def run(ctx: Ctx):
         pn = dict(d["process_noise"])
         cal = dict(d["calibration_map"])
         coq_ops, coq_exp = [], []
+        if j.get("config0_view"):
+            init = r.get("ops_initial")
+            for op, o in zip(j["ops"], r["ops"]):
+                if o["result"] != "ok" or o["state"] != init:
+                    ctx.violation(f"estimator configured with a Config subclass instance: after {op[0]} the parameters are no longer what was handed in "
+                                  f"(config type {o['state'].get('config_type')!r}, was {init.get('config_type')!r}; result {o['result']})",
+                                  {"definition": d, "ops": j["ops"], "before": init, "after": o["state"]}, key="config-object-replaced")
+                    break
+            continue
         for op, o in zip(j["ops"], r["ops"]):
             dist["ops"][op[0]] = dist["ops"].get(op[0], 0) + 1
             exp_result = "ok"
@@ -96,6 +113,8 @@ def run(ctx: Ctx):
                         pn = dict(v["noise"])
                     elif k == "calibration_map":
                         cal = dict(v["noise"])
+                    elif k == "python_modules":
+                        cfg = dict(cfg, python_modules="mods:" + "|".join(v))
                     elif k in FIELDS:
                         cfg = dict(cfg, **{k: v})
                     else:
@@ -124,10 +143,12 @@ def run(ctx: Ctx):
                         c = {"common_subexpression_elimination": "True", "python_modules": "modules", "extra_validation": "False",
                              "max_dt_sec": tok(v["config"].get("max_dt_sec", 0.1)), "innovation_filtering": tok(v["config"].get("innovation_filtering", 5.0))}
                         items.append(f"({M.coq_str(k)}, PConfig string {M.coq_list([f'({M.coq_str(a)}, {M.coq_str(b)})' for a, b in c.items()])})")
+                    elif k == "python_modules":
+                        items.append(f"({M.coq_str(k)}, PV string {M.coq_str('mods:' + '|'.join(v))})")
                     else:
                         items.append(f"({M.coq_str(k)}, PV string {M.coq_str(tok(v) if not isinstance(v, dict) else k + '#' + repr(sorted(v['noise'].items())))})")
                 coq_ops.append(M.coq_list(items))
-                coq_exp.append((o["result"] == "ok", {f: tok(st["config"][f]) if f != "python_modules" else "modules" for f in FIELDS}))
+                coq_exp.append((o["result"] == "ok", {f: tok(st["config"][f]) if f != "python_modules" else st["config"][f] for f in FIELDS}))
         if coq_ops:
             init_cfg = M.coq_list([f"({M.coq_str(a)}, {M.coq_str(b)})" for a, b in model_state(d)[1].items()])
             init_par = M.coq_list([f"({M.coq_str(a)}, {M.coq_str(b)})" for a, b in model_state(d)[0].items()])
